@@ -179,6 +179,26 @@ pub mod prelude {
         ensures final(v)@ =~= old(v)@.subrange(0, a as int) + src@ + old(v)@.subrange(b as int, old(v)@.len() as int)
     { v[a..b].copy_from_slice(src) }
 
+    // R12: iteration protocol for generic iterators.  Assumption: an `IntoIterator` argument
+    // denotes a finite sequence of items (`into_seq`), delivered in order by `next`.
+    pub uninterp spec fn into_seq<II: IntoIterator>(x: II) -> Seq<II::Item>;
+    pub uninterp spec fn iter_remaining<I: Iterator>(it: I) -> Seq<I::Item>;
+
+    #[verifier::external_body]
+    pub fn iter_begin<II: IntoIterator>(x: II) -> (r: II::IntoIter)
+        ensures iter_remaining(r) == into_seq(x)
+    { x.into_iter() }
+
+    #[verifier::external_body]
+    pub fn iter_next<I: Iterator>(it: &mut I) -> (r: Option<I::Item>)
+        ensures
+            match r {
+                None => iter_remaining(*old(it)).len() == 0 && iter_remaining(*final(it)).len() == 0,
+                Some(x) => iter_remaining(*old(it)).len() > 0 && x == iter_remaining(*old(it))[0]
+                    && iter_remaining(*final(it)) == iter_remaining(*old(it)).subrange(1, iter_remaining(*old(it)).len() as int),
+            }
+    { it.next() }
+
     // R9: std::cmp::min, used by ppp on usize only
     #[verifier::external_body]
     pub fn usize_min(a: usize, b: usize) -> (r: usize)
